@@ -401,9 +401,40 @@ def topological_sort(nodes):
 
     known = set(x + y for x in "uir" for y in ["8", "16", "32", "64"])
     available = set(node.name for node in nodes)
+    _check_acyclic_dependencies(nodes, available)
     for index in range(len(nodes)):
         while model_sort_rotate():
             pass
+
+
+def _check_acyclic_dependencies(nodes, available):
+    """ Definitions that (transitively) depend on themselves can not be ordered; the sort would rotate forever. """
+    graph = {}
+    for node in nodes:
+        graph.setdefault(node.name, set()).update(dep for dep in node.dependencies() if dep in available)
+
+    done = set()
+    for start in graph:
+        path = []
+        on_path = set()
+        stack = [(start, iter(sorted(graph[start])))]
+        while stack:
+            name, deps = stack[-1]
+            if name not in on_path:
+                on_path.add(name)
+                path.append(name)
+            for dep in deps:
+                if dep in on_path:
+                    cycle = path[path.index(dep):] + [dep]
+                    raise ModelError("Cyclic definition: {}.".format(" -> ".join(cycle)))
+                if dep not in done:
+                    stack.append((dep, iter(sorted(graph[dep]))))
+                    break
+            else:
+                stack.pop()
+                on_path.discard(name)
+                path.pop()
+                done.add(name)
 
 
 def _make_types_index(nodes_):
